@@ -158,7 +158,7 @@ def run(ctx):
         legs = [(1, "MCPageTables1Full", 0), (2, "MCPageTables2Full", 0)]
     for ib, cfg, _ in legs:
         raw = os.path.join(ctx.work, "c04_raw_%s.ndjson" % cfg)
-        ctx.model_check(d, "MCPageTables", cfg, env={"CASES": raw}, timeout=1500, workers=1 if q else 8, coverage=False)
+        ctx.model_check(d, "MCPageTables", cfg, env={"CASES": raw}, timeout=1500, workers=1 if q else 8)
         raws.append((ib, cfg, raw))
     bugs = ["NoClearNewTable", "NoRestoreRecursive"] if q else \
            ["NoClearNewTable", "NoRestoreRecursive", "StaleBitsOnRemap", "NoFlushOnUnmap", "NoFlushOnMap", "RegionCountUnrounded"]
